@@ -319,7 +319,8 @@ pub fn check_graph(c: &GraphCase, acc: &mut Acc, record: bool) -> Verdict {
 }
 
 fn random_graph_strategy() -> BoxedStrategy<Graph> {
-    (1usize..=60)
+    // mostly small; one case in eight is large enough for object numbers to need two var-int bytes (>= 128)
+    prop_oneof![7 => 1usize..=60, 1 => 100usize..=400]
         .prop_flat_map(|n| {
             let deg = prop_oneof![3 => 0usize..=2, 2 => 0usize..=5];
             let edges = proptest::collection::vec(deg.prop_flat_map(move |d| proptest::collection::vec(0..n, d..=d)), n..=n);
@@ -384,12 +385,16 @@ pub fn run_c10(cx: &Cx) -> PropResult {
             }
         }
         let strat = (random_graph_strategy(), any::<bool>(), any::<u16>(), any::<u8>()).prop_map(|(g, tracked_header, fault_sel, fault_kind)| GraphCase { g, tracked_header, fault_sel, fault_kind }).boxed();
-        drive(tag_seed(derive_seed(cx.seed, cx.prop, shard as u64, 0), 0), &strat, per_shard, acc, &|c: &GraphCase| to_json(c), &mut |c, a, r| check_graph(c, a, r));
+        if drive(tag_seed(derive_seed(cx.seed, cx.prop, shard as u64, 0), 0), &strat, per_shard, acc, &|c: &GraphCase| to_json(c), &mut |c, a, r| check_graph(c, a, r)) {
+            return;
+        }
+        let strat = holder_strategy();
+        drive(tag_seed(derive_seed(cx.seed, cx.prop, shard as u64, 1), 1), &strat, per_shard / 2, acc, &|c: &HolderCase| to_json(&json!({"Holder": c})), &mut |c, a, r| check_holder(c, a, r));
     });
     let mut r = PropResult::new(
         acc,
         "exploration",
-        "graphs: EXHAUSTIVELY every rooted digraph with 1-4 nodes whose nodes have ordered out-edge lists of length <= 2 over any targets (self-loops, diamonds, back-edges, parallel edges), all nodes reachable; randomly: 1-60 nodes, out-degree <= 5. A harness codec written in safe code offers node addresses as identities (in one third / one half of the cases it additionally offers each node's embedded header, a distinct object of another type that lives at the node's own address, which must get its own number) (store_ref_or_object on the writer; state_mut().store_ref right after allocation and try_read_ref + downcast on the reader). Oracles: bytes == model (first offer: 00 + body, later offers: var-u32 of the 1-based first-encounter number, pre-order), objects written == reachable nodes, encoding terminates on cycles; decoded graph isomorphic by a simultaneous walk (labels, ordered edges; two edges reach the same original node iff the decoded targets are pointer-equal); a reference rewritten to objects+1, objects+1000 or u32::MAX decodes to Err(InvalidRefId). Non-trivial = a cycle or a node with in-degree >= 2.",
+        "graphs: EXHAUSTIVELY every rooted digraph with 1-4 nodes whose nodes have ordered out-edge lists of length <= 2 over any targets (self-loops, diamonds, back-edges, parallel edges), all nodes reachable; randomly: 1-60 nodes (one case in eight: 100-400 nodes, so that object numbers cross the one-byte var-int boundary), out-degree <= 5. A harness codec written in safe code offers node addresses as identities (in one third / one half of the cases it additionally offers each node's embedded header, a distinct object of another type that lives at the node's own address, which must get its own number) (store_ref_or_object on the writer; state_mut().store_ref right after allocation and try_read_ref + downcast on the reader). Oracles: bytes == model (first offer: 00 + body, later offers: var-u32 of the 1-based first-encounter number, pre-order), objects written == reachable nodes, encoding terminates on cycles; decoded graph isomorphic by a simultaneous walk (labels, ordered edges; two edges reach the same original node iff the decoded targets are pointer-equal); a reference rewritten to objects+1, objects+1000 or u32::MAX decodes to Err(InvalidRefId). Non-trivial = a cycle or a node with in-degree >= 2. Tracked objects as record fields: a hand-expanded derive of struct Holder { a: u8, g1: Slot, s: String, g2: Slot, g3: Slot } (Slot offers a node of one shared graph) as a version-0 record and with g2 / g3 / s introduced by FieldAdded steps (so the slots live in different chunks), followed by one more byte in the stream; bytes must equal the model (markers and back-references inside the chunk of their field, objects numbered in field order) and decoding must restore the sharing between the fields.",
     );
     r.exhaustive = Some(true);
     r.extra = json!({"exhaustive_note": "exhaustive for graphs of <= 4 nodes with out-degree <= 2; larger graphs are sampled", "exhaustive_max_nodes": max_n});
@@ -398,6 +403,258 @@ pub fn run_c10(cx: &Cx) -> PropResult {
 }
 
 pub fn replay_c10(case: &Value) -> Verdict {
+    if let Some(h) = case.get("Holder") {
+        let c: HolderCase = serde_json::from_value(h.clone()).expect("replay case");
+        return check_holder(&c, &mut Acc::new(), false);
+    }
     let c: GraphCase = serde_json::from_value(case.clone()).expect("replay case");
     check_graph(&c, &mut Acc::new(), false)
+}
+
+// ------------------------------------------------------------------------------------------------
+// tracked objects as fields of (evolved) records: the back-references must land in the field's chunk
+
+thread_local! {
+    static DECODED: RefCell<Vec<Rc<GNode>>> = const { RefCell::new(Vec::new()) };
+}
+
+/// a field type whose codec offers the node to the stream
+pub struct Slot(pub Rc<GNode>);
+impl desert::BinarySerializer for Slot {
+    fn serialize<O: BinaryOutput>(&self, ctx: &mut SerializationContext<O>) -> desert::Result<()> {
+        ser_slot(&self.0, ctx, false)
+    }
+}
+impl desert::BinaryDeserializer for Slot {
+    fn deserialize(ctx: &mut DeserializationContext<'_>) -> desert::Result<Self> {
+        let mut all = DECODED.with(|d| std::mem::take(&mut *d.borrow_mut()));
+        let r = de_slot(ctx, &mut all, 0, false);
+        DECODED.with(|d| *d.borrow_mut() = all);
+        r.map(Slot)
+    }
+}
+
+#[derive(Debug, Clone, Serialize, Deserialize)]
+pub struct HolderCase {
+    pub g: Graph,
+    /// which nodes the three slot fields point at
+    pub at: [usize; 3],
+    /// 0: version-0 record; 1: g2 added (chunk 1); 2: g2 and g3 added (chunks 1 and 2); 3: s and g3 added
+    pub kind: u8,
+    pub a: u8,
+    pub s: String,
+}
+
+fn holder_steps(kind: u8) -> Vec<&'static str> {
+    match kind % 4 {
+        0 => vec![],
+        1 => vec!["g2"],
+        2 => vec!["g2", "g3"],
+        _ => vec!["s", "g3"],
+    }
+}
+
+fn holder_meta(kind: u8) -> desert::adt::AdtMetadata {
+    let mut steps = vec![desert::Evolution::InitialVersion];
+    for n in holder_steps(kind) {
+        steps.push(desert::Evolution::FieldAdded { name: n.to_string() });
+    }
+    desert::adt::AdtMetadata::new(steps)
+}
+
+/// what `#[derive(BinaryCodec)] struct Holder { a: u8, g1: Slot, s: String, g2: Slot, g3: Slot }` expands to
+fn ser_holder(c: &HolderCase, nodes: &[Rc<GNode>]) -> desert::Result<Vec<u8>> {
+    let meta = holder_meta(c.kind);
+    let mut ctx = SerializationContext::new(Vec::new());
+    {
+        let mut s = if holder_steps(c.kind).is_empty() { desert::adt::AdtSerializer::new_v0(&meta, &mut ctx) } else { desert::adt::AdtSerializer::new(&meta, &mut ctx) };
+        s.write_field("a", &c.a)?;
+        s.write_field("g1", &Slot(nodes[c.at[0]].clone()))?;
+        s.write_field("s", &c.s)?;
+        s.write_field("g2", &Slot(nodes[c.at[1]].clone()))?;
+        s.write_field("g3", &Slot(nodes[c.at[2]].clone()))?;
+        s.finish()?;
+    }
+    // something after the record, in the same stream
+    ctx.write_u8(0xEE);
+    Ok(ctx.into_output())
+}
+
+type HolderOut = (u8, Rc<GNode>, String, Rc<GNode>, Rc<GNode>, u8);
+
+fn de_holder(kind: u8, bytes: &[u8]) -> desert::Result<HolderOut> {
+    let meta = holder_meta(kind);
+    let mut ctx = DeserializationContext::new(bytes);
+    let stored = ctx.read_u8()?;
+    let out = {
+        let mut d = if stored == 0 { desert::adt::AdtDeserializer::new_v0(&meta, &mut ctx)? } else { desert::adt::AdtDeserializer::new(&meta, &mut ctx, stored)? };
+        let a: u8 = d.read_field("a", None)?;
+        let g1: Slot = d.read_field("g1", None)?;
+        let s: String = d.read_field("s", None)?;
+        let g2: Slot = d.read_field("g2", None)?;
+        let g3: Slot = d.read_field("g3", None)?;
+        (a, g1.0, s, g2.0, g3.0)
+    };
+    let tail = ctx.read_u8()?;
+    Ok((out.0, out.1, out.2, out.3, out.4, tail))
+}
+
+struct GModel {
+    ids: Vec<Option<u32>>,
+    next: u32,
+}
+impl GModel {
+    fn slot(&mut self, n: usize, g: &Graph, out: &mut Vec<u8>) {
+        match self.ids[n] {
+            Some(id) => var_u32(id, out),
+            None => {
+                self.next += 1;
+                self.ids[n] = Some(self.next);
+                out.push(0);
+                out.extend_from_slice(&g.labels[n].to_be_bytes());
+                var_u32(g.edges[n].len() as u32, out);
+                for t in g.edges[n].clone() {
+                    self.slot(t, g, out);
+                }
+            }
+        }
+    }
+}
+
+fn holder_model(c: &HolderCase) -> Vec<u8> {
+    let steps = holder_steps(c.kind);
+    let chunk_of = |name: &str| steps.iter().position(|s| *s == name).map(|i| i + 1).unwrap_or(0);
+    let mut chunks: Vec<Vec<u8>> = vec![Vec::new(); steps.len() + 1];
+    let mut m = GModel { ids: vec![None; c.g.labels.len()], next: 0 };
+    // fields in declaration order, each into the chunk of the step that added it; object numbers follow that order
+    chunks[chunk_of("a")].push(c.a);
+    m.slot(c.at[0], &c.g, &mut chunks[chunk_of("g1")]);
+    {
+        let b = &mut chunks[chunk_of("s")];
+        vmodel::refcodec::var_i32(c.s.len() as i32, b);
+        b.extend_from_slice(c.s.as_bytes());
+    }
+    m.slot(c.at[1], &c.g, &mut chunks[chunk_of("g2")]);
+    m.slot(c.at[2], &c.g, &mut chunks[chunk_of("g3")]);
+    let mut out = vec![steps.len() as u8];
+    if !steps.is_empty() {
+        for ch in &chunks {
+            vmodel::refcodec::var_i32(ch.len() as i32, &mut out);
+        }
+    }
+    for ch in &chunks {
+        out.extend_from_slice(ch);
+    }
+    out.push(0xEE);
+    out
+}
+
+pub fn check_holder(c: &HolderCase, acc: &mut Acc, record: bool) -> Verdict {
+    let g = &c.g;
+    if g.labels.is_empty() || g.edges.len() != g.labels.len() || g.edges.iter().flatten().any(|t| *t >= g.labels.len()) || c.at.iter().any(|i| *i >= g.labels.len()) {
+        return Verdict::Skip;
+    }
+    let want = holder_model(c);
+    let shared_across_fields = c.at[1] == c.at[0] || c.at[2] == c.at[0] || c.at[2] == c.at[1] || {
+        // the later field's node is reachable from an earlier field's node
+        let reach = |from: usize| {
+            let mut seen = vec![false; g.labels.len()];
+            let mut st = vec![from];
+            while let Some(n) = st.pop() {
+                if !seen[n] {
+                    seen[n] = true;
+                    st.extend(g.edges[n].iter().copied());
+                }
+            }
+            seen
+        };
+        reach(c.at[0])[c.at[1]] || reach(c.at[0])[c.at[2]] || reach(c.at[1])[c.at[2]]
+    };
+    if record {
+        let class = format!("tracked objects as record fields: {}", ["version-0 record", "g2 in chunk 1", "g2, g3 in chunks 1, 2", "s, g3 in chunks 1, 2"][c.kind as usize % 4]);
+        acc.case(&class, hash_json(c), shared_across_fields && c.kind % 4 != 0);
+        if acc.wants_sample(&class) && shared_across_fields {
+            acc.sample(&class, json!({"labels": g.labels, "edges": g.edges, "fields_point_at": c.at, "bytes_hex": hex(&want[..want.len().min(64)])}));
+        }
+    }
+    let nodes = build(g);
+    let enc = guarded(|| ser_holder(c, &nodes));
+    let res = (|| {
+        let bytes = match enc {
+            Ok(Ok(b)) => b,
+            Ok(Err(e)) => return Verdict::Fail(format!("encoding failed: {e:?}")),
+            Err(p) => return Verdict::Fail(format!("encoding panicked: {p}")),
+        };
+        if bytes != want {
+            return Verdict::Fail(format!("a record whose fields offer tracked objects (graph {:?} / {:?}, fields at nodes {:?}, evolution steps FieldAdded{:?}) encodes as {} — expected {} (each marker / back-reference inside the chunk of its field, objects numbered in field order)", g.labels, g.edges, c.at, holder_steps(c.kind), hex(&bytes), hex(&want)));
+        }
+        DECODED.with(|d| d.borrow_mut().clear());
+        let dec = guarded(|| de_holder(c.kind, &bytes));
+        let all = DECODED.with(|d| std::mem::take(&mut *d.borrow_mut()));
+        let v = match dec {
+            Ok(Ok((a, g1, s, g2, g3, tail))) => {
+                if a != c.a || s != c.s || tail != 0xEE {
+                    Verdict::Fail(format!("plain fields came back as a={a} s={s:?} tail={tail:#x}"))
+                } else if g1.head.label != g.labels[c.at[0]] || g2.head.label != g.labels[c.at[1]] || g3.head.label != g.labels[c.at[2]] {
+                    Verdict::Fail("slot fields point at nodes with other labels".into())
+                } else if (c.at[0] == c.at[1]) != Rc::ptr_eq(&g1, &g2) || (c.at[1] == c.at[2]) != Rc::ptr_eq(&g2, &g3) || (c.at[0] == c.at[2]) != Rc::ptr_eq(&g1, &g3) {
+                    Verdict::Fail("sharing between the slot fields was not restored exactly".into())
+                } else {
+                    match isomorphic_from(g, c.at[0], &g1) {
+                        Ok(()) => Verdict::Pass,
+                        Err(e) => Verdict::Fail(format!("graph below the first slot field: {e}")),
+                    }
+                }
+            }
+            Ok(Err(e)) => Verdict::Fail(format!("decoding {} failed: {e:?}", hex(&bytes))),
+            Err(p) => Verdict::Fail(format!("decoding {} panicked: {p}", hex(&bytes))),
+        };
+        unlink(&all);
+        v
+    })();
+    unlink(&nodes);
+    res
+}
+
+fn isomorphic_from(g: &Graph, start: usize, root: &Rc<GNode>) -> Result<(), String> {
+    // relabel so that `start` is the root the generic walk expects
+    let mut map: Vec<Option<Rc<GNode>>> = vec![None; g.labels.len()];
+    let mut stack = vec![(start, root.clone())];
+    while let Some((i, d)) = stack.pop() {
+        match &map[i] {
+            Some(prev) => {
+                if !Rc::ptr_eq(prev, &d) {
+                    return Err(format!("node {i}: sharing lost"));
+                }
+                continue;
+            }
+            None => {
+                if map.iter().flatten().any(|x| Rc::ptr_eq(x, &d)) {
+                    return Err(format!("node {i}: distinct nodes merged"));
+                }
+                map[i] = Some(d.clone());
+            }
+        }
+        if d.head.label != g.labels[i] {
+            return Err(format!("label of node {i}"));
+        }
+        let es = d.edges.borrow();
+        if es.len() != g.edges[i].len() {
+            return Err(format!("edge count of node {i}"));
+        }
+        for (k, t) in g.edges[i].iter().enumerate() {
+            stack.push((*t, es[k].clone()));
+        }
+    }
+    Ok(())
+}
+
+pub fn holder_strategy() -> BoxedStrategy<HolderCase> {
+    (1usize..=8)
+        .prop_flat_map(|n| {
+            let edges = proptest::collection::vec(proptest::collection::vec(0..n, 0..3), n..=n);
+            (proptest::collection::vec(any::<u32>(), n..=n), edges, [0..n, 0..n, 0..n], 0u8..4, any::<u8>(), "[a-z]{0,6}")
+        })
+        .prop_map(|(labels, edges, at, kind, a, s)| HolderCase { g: Graph { labels, edges }, at, kind, a, s })
+        .boxed()
 }
